@@ -617,6 +617,8 @@ type chanSite struct {
 // chanField resolves a channel expression to the struct field it lives in (directly, or through
 // getter-like methods resolved by the call graph).
 func (r *Run) chanField(fn *Func, x ast.Expr) (*types.Var, string) {
+	// a channel handed to a looked-into helper (drain(ch), trySend(ch, v)) is the caller's channel
+	fn, x = resolveBound(fn, x)
 	x = ast.Unparen(x)
 	if se, ok := x.(*ast.SelectorExpr); ok {
 		if sel, ok := fn.Info().Selections[se]; ok && sel.Kind() == types.FieldVal {
@@ -709,7 +711,7 @@ func (r *Run) chanSites() []chanSite {
 					held = r.locksAlong(&r.Paths(fn)[pi], r.entryLocks(fn))
 				}
 				site.Fn, site.Held, site.Pos = fn.root(), held[i], ev.Pos
-				k := fmt.Sprintf("%d|%s", ev.Pos, site.Held)
+				k := fmt.Sprintf("%d|%s|%s.%s|%s", ev.Pos, site.Held, site.Owner, site.Field.Name(), site.Fn.Name)
 				if !seen[k] {
 					seen[k] = true
 					out = append(out, *site)
